@@ -355,6 +355,7 @@ func checkFlow(p flowParams, x *verifkit.Exec) []verifkit.Violation {
 	a.checkRecovery(x)
 	a.checkControl(x)
 	a.checkReconf(x)
+	a.checkApply(x)
 	return a.out
 }
 
@@ -733,4 +734,108 @@ func restarted(evs []verifkit.Event) bool {
 		}
 	}
 	return n > 1
+}
+
+
+// checkApply is the C16 oracle: a live apply loses nothing and never applies a stale plan.
+func (a *analysis) checkApply(x *verifkit.Exec) {
+	if len(a.p.Apply) == 0 {
+		return
+	}
+	genOf := func(arg string) string {
+		k := strings.Index(arg, "gen=")
+		if k < 0 {
+			return ""
+		}
+		return strings.SplitN(arg[k+4:], "|", 2)[0]
+	}
+	storedGen := map[string]string{} // processor id -> generation the STORED configuration holds
+	for _, pr := range a.p.Procs {
+		storedGen[pr.ID] = "g0"
+	}
+	applying := 0
+	opensDuring, teardownsDuring := 0, 0
+	var begin verifkit.Event
+	settled := true // false while an apply is in flight (the switch happens somewhere inside)
+	for _, e := range a.evs {
+		switch {
+		case e.Comp == "ctl" && e.Kind == "apply.begin":
+			applying++
+			settled = false
+			begin = e
+			opensDuring, teardownsDuring = 0, 0
+		case (isSource(e.Comp) || isDest(e.Comp)) && e.Kind == "open" && applying > 0:
+			opensDuring++
+		case (isSource(e.Comp) || isDest(e.Comp)) && e.Kind == "teardown" && applying > 0:
+			teardownsDuring++
+		case e.Comp == "ctl" && e.Kind == "apply.ret":
+			applying--
+			if applying == 0 {
+				settled = true
+			}
+			f := strings.Split(e.Arg, "|")
+			errText := f[0]
+			stored := ""
+			for _, kv := range f {
+				if strings.HasPrefix(kv, "stored=") {
+					stored = kv[7:]
+				}
+			}
+			spec := ""
+			if e.Idx-1 < len(a.p.Apply) && e.Idx >= 1 {
+				spec = a.p.Apply[e.Idx-1]
+			}
+			for _, kv := range strings.Split(stored, ",") {
+				if i := strings.Index(kv, "="); i > 0 && !strings.Contains(kv[:i], ".") && kv[:i] != "desc" {
+					storedGen[kv[:i]] = kv[i+1:]
+				}
+			}
+			refused := strings.Contains(errText, "stale") || strings.Contains(errText, "requires operator authorization")
+			if strings.Contains(spec, "+stale") && !strings.Contains(errText, "stale") {
+				a.bad("C16/stale-plan-applied", "the state changed between plan and apply but ApplyPlanLive did not refuse the plan as stale (returned %q) (event #%d)", errText, e.Seq)
+			}
+			if strings.Contains(spec, "+noauth") && !strings.Contains(spec, "+stale") && errText == "nil" && begin.Seq > 0 && wasRunningAt(a.evs, begin.Seq) {
+				a.bad("C16/running-pipeline-touched-without-authorisation", "a running pipeline was changed by a live apply without operator authorisation (event #%d)", e.Seq)
+			}
+			if refused {
+				if opensDuring+teardownsDuring > 0 {
+					a.bad("C16/refused-apply-touched-the-run", "the apply was refused (%s) but connectors were opened/torn down during it (%d/%d)", errText, opensDuring, teardownsDuring)
+				}
+				g := fmt.Sprintf("g%d", e.Idx)
+				if strings.Contains(stored, "="+g) {
+					a.bad("C16/refused-apply-changed-config", "the apply was refused (%s) but the stored configuration now holds %s", errText, stored)
+				}
+			}
+		case strings.HasPrefix(e.Comp, "proc:") && e.Kind == "in" && settled:
+			// a record processed while no apply is in flight must be processed by what the stored configuration says
+			name := strings.SplitN(strings.TrimPrefix(e.Comp, "proc:"), "#", 2)[0]
+			if want, ok := storedGen[name]; ok && genOf(e.Arg) != "" && genOf(e.Arg) != want {
+				a.bad("C16/running-config-differs-from-stored", "record %d was processed by processor %s with configuration %s while the stored configuration says %s (event #%d): after the apply the running pipeline and the stored configuration disagree", e.Idx, name, genOf(e.Arg), want, e.Seq)
+			}
+		}
+	}
+	if !x.StepCapHit && len(x.W.Pending()) == 0 {
+		for _, c := range x.Controls {
+			if strings.HasPrefix(c.Name, "apply#") && c.Issued() && !c.ReturnedInTime() {
+				a.bad("C16/apply-never-returns", "the live apply %s never returned although every plugin and store request was answered", c.Name)
+			}
+		}
+	}
+}
+
+func wasRunningAt(evs []verifkit.Event, seq int) bool {
+	status := ""
+	for _, e := range evs {
+		if e.Seq > seq {
+			break
+		}
+		if e.Comp == "db" && e.Kind == "put" && strings.HasPrefix(e.Arg, "pipeline:instance:") {
+			if parts := strings.SplitN(e.Arg, "|", 2); len(parts) == 2 {
+				if _, st, _ := stack.ParseDescribe(parts[1]); st != "" {
+					status = st
+				}
+			}
+		}
+	}
+	return status == "Running"
 }
